@@ -39,9 +39,7 @@ theorem fold_setPausedProtocol (l : List Int) (o o' : OrbState) (hn : o.pausedPr
     cases (q == x) <;> cases (rest.contains q) <;> simp
 
 theorem fold_setPausedCrossChain (l : List (Option (Int × String))) (o o' : OrbState) (hn : o.pausedCrossChains.Nodup)
-    (h : l.foldlM (fun o c => match c with
-      | some (p, cp) => asPanic (setPausedCrossChain o p cp)
-      | none => .panic "InitGenesis:nil-id") o = .ok o') :
+    (h : l.foldlM initCcStep o = .ok o') :
     o'.pausedCrossChains.Nodup ∧ (∀ q, o'.pausedCrossChains.contains q = (l.contains (some q) || o.pausedCrossChains.contains q)) ∧
     o'.pausedProtocols = o.pausedProtocols ∧ o'.pausedActions = o.pausedActions ∧ o'.sameRest o := by
   induction l generalizing o with
@@ -56,7 +54,7 @@ theorem fold_setPausedCrossChain (l : List (Option (Int × String))) (o o' : Orb
     | none => cases h1
     | some pc =>
       obtain ⟨p, cp⟩ := pc
-      simp only at h1
+      simp only [initCcStep] at h1
       obtain ⟨hc, _, rfl⟩ := setPausedCrossChain_spec (asPanic_ok h1)
       have hn1 : (insertBy ccLt (p, cp) o.pausedCrossChains).Nodup := nodup_insertBy ccLt _ _ (by simpa using hc) hn
       obtain ⟨i1, i2, i3, i4, i5⟩ := ih _ hn1 h
@@ -113,8 +111,10 @@ theorem initGenesis_pause (g : Genesis) (o : OrbState) (h : initGenesis g = .ok 
   have p1 : o1.samePause { params := some g.params } := by
     refine Res.foldlM_inv _ (fun x => x.samePause { params := some g.params }) ?_ _ _ _ ⟨rfl, rfl, rfl, rfl⟩ h1
     intro b a b' hb hs
+    unfold initAmtStep at hs
     split at hs
-    · split at hs
+    · simp only at hs
+      split at hs
       · cases hs
       · split at hs
         · cases hs
@@ -123,6 +123,7 @@ theorem initGenesis_pause (g : Genesis) (o : OrbState) (h : initGenesis g = .ok 
   have p2 : o2.samePause { params := some g.params } := by
     refine Res.foldlM_inv _ (fun x => x.samePause { params := some g.params }) ?_ _ _ _ p1 h2
     intro b a b' hb hs
+    unfold initCntStep at hs
     split at hs
     · split at hs
       · cases hs
